@@ -5,5 +5,7 @@ cd "$(dirname "$0")"
 export CARGO_NET_OFFLINE=true
 mkdir -p scratch replays evidence
 cp /repo/Cargo.lock harness/Cargo.lock
+# the cargo-fuzz project (thorough tier) resolves offline from the same lock file
+[ -f fuzzing/fuzz/Cargo.lock ] || cp /repo/Cargo.lock fuzzing/fuzz/Cargo.lock
 cd harness
 cargo build --offline --bin vcheck
